@@ -215,6 +215,8 @@ class StereoMolGraph(MolGraph):
 
         :param atom: Atom
         """
+        if atom not in self._atom_attrs:
+            raise KeyError(atom)
         for a, atom_stereo in self._atom_stereo.copy().items():
             if atom in atom_stereo.atoms:
                 self.delete_atom_stereo(a)
